@@ -13,6 +13,7 @@ import (
 	"path"
 	"path/filepath"
 	"regexp"
+	"regexp/syntax"
 	"sort"
 	"strconv"
 	"strings"
@@ -87,11 +88,6 @@ func init() {
 			return PtrV{in.newCell(Opaque{Kind: "strings.Reader", Obj: a[0]})}, true
 		},
 		"bytes.NewReader": func(in *Interp, _ *frame, a []Value) (Value, bool) {
-			if sl, ok := a[0].(SliceV); ok && sl.B != nil {
-				if blob, ok := in.jsonBlobs[sl.B]; ok {
-					return PtrV{in.newCell(Opaque{Kind: "jsonreader", Obj: blob})}, true
-				}
-			}
 			return PtrV{in.newCell(Opaque{Kind: "strings.Reader", Obj: in.bytesToStr(a[0].(SliceV))})}, true
 		},
 		"path.Clean": func(in *Interp, _ *frame, a []Value) (Value, bool) {
@@ -127,6 +123,48 @@ func init() {
 				sl.B.E[sl.Off+i] = concStr(in.tf, ss[i])
 			}
 			return nil, true
+		},
+		"strconv.AppendUint": func(in *Interp, _ *frame, a []Value) (Value, bool) {
+			dst := a[0].(SliceV)
+			v := uint64(in.concretizeInt(a[1].(IntV).T, false))
+			base := int(in.concInt(a[2]))
+			out := in.bytesToStr(dst)
+			res := in.strConcat(out, concStr(in.tf, strconv.FormatUint(v, base)))
+			return in.strToBytes(res), true
+		},
+		"strconv.AppendInt": func(in *Interp, _ *frame, a []Value) (Value, bool) {
+			dst := a[0].(SliceV)
+			v := in.concInt(a[1])
+			base := int(in.concInt(a[2]))
+			res := in.strConcat(in.bytesToStr(dst), concStr(in.tf, strconv.FormatInt(v, base)))
+			return in.strToBytes(res), true
+		},
+		"strconv.FormatInt": func(in *Interp, _ *frame, a []Value) (Value, bool) {
+			return concStr(in.tf, strconv.FormatInt(in.concInt(a[0]), int(in.concInt(a[1])))), true
+		},
+		"path/filepath.Match": func(in *Interp, _ *frame, a []Value) (Value, bool) {
+			p := in.forceConc(a[0].(*Str), "filepath.Match")
+			n := in.forceConc(a[1].(*Str), "filepath.Match")
+			ok, err := filepath.Match(p, n)
+			if err != nil {
+				return Tuple{in.tf.F, in.newError(err.Error())}, true
+			}
+			return Tuple{in.tf.Bool(ok), Iface{}}, true
+		},
+		"bytes.IndexFunc": func(in *Interp, fr *frame, a []Value) (Value, bool) {
+			b := a[0].(SliceV)
+			cl := a[1].(*Closure)
+			for i := 0; i < b.Len; i++ {
+				t := b.B.E[b.Off+i].(IntV).T
+				if !in.branch(in.tf.Cmp(OpUlt, t, in.tf.BV(8, 0x80))) {
+					in.unsupported("bytes.IndexFunc on non-ASCII symbolic byte")
+				}
+				r := in.invokePrepared(fr, cl, []Value{IntV{in.tf.Resize(t, 32, false)}}, cl.Binds)
+				if in.branch(r.(*Term)) {
+					return IntV{in.tf.BV(64, uint64(i))}, true
+				}
+			}
+			return IntV{in.tf.BV(64, ^uint64(0))}, true
 		},
 		"strconv.FormatBool": func(in *Interp, _ *frame, a []Value) (Value, bool) {
 			return in.iteStr(a[0].(*Term), concStr(in.tf, "true"), concStr(in.tf, "false")), true
@@ -763,24 +801,44 @@ func (in *Interp) sprintfModel(format *Str, args SliceV) (*Str, bool) {
 
 // ---- regexp ----------------------------------------------------------------
 
-func (in *Interp) regexpMatch(pat string, s *Str) *Term {
-	tf := in.tf
-	var class func(b *Term) *Term
-	rng := func(b *Term, lo, hi byte) *Term {
-		return tf.And(tf.Cmp(OpUle, tf.BV(8, uint64(lo)), b), tf.Cmp(OpUle, b, tf.BV(8, uint64(hi))))
+// regexpClassShape recognises ^[class]+$ / ^[class]*$ and returns the class
+// as rune ranges (lo,hi pairs).
+func regexpClassShape(pat string) (ranges []rune, allowEmpty bool, ok bool) {
+	re, err := syntax.Parse(pat, syntax.Perl)
+	if err != nil {
+		return nil, false, false
 	}
-	switch pat {
-	case "^[a-fA-F0-9]+$":
-		class = func(b *Term) *Term { return tf.OrN(rng(b, 'a', 'f'), rng(b, 'A', 'F'), rng(b, '0', '9')) }
-	case "^[a-zA-Z0-9_-]+$":
-		class = func(b *Term) *Term {
-			return tf.OrN(rng(b, 'a', 'z'), rng(b, 'A', 'Z'), rng(b, '0', '9'), tf.Eq(b, tf.BV(8, '_')), tf.Eq(b, tf.BV(8, '-')))
+	re = re.Simplify()
+	if re.Op != syntax.OpConcat || len(re.Sub) != 3 {
+		return nil, false, false
+	}
+	if re.Sub[0].Op != syntax.OpBeginText || re.Sub[2].Op != syntax.OpEndText {
+		return nil, false, false
+	}
+	mid := re.Sub[1]
+	if mid.Op != syntax.OpPlus && mid.Op != syntax.OpStar {
+		return nil, false, false
+	}
+	cc := mid.Sub[0]
+	switch cc.Op {
+	case syntax.OpCharClass:
+		return cc.Rune, mid.Op == syntax.OpStar, true
+	case syntax.OpLiteral:
+		if len(cc.Rune) == 1 {
+			return []rune{cc.Rune[0], cc.Rune[0]}, mid.Op == syntax.OpStar, true
 		}
 	}
+	return nil, false, false
+}
+
+func (in *Interp) regexpMatch(pat string, s *Str) *Term {
+	tf := in.tf
 	re, err := regexp.Compile(pat)
 	if err != nil {
 		in.goPanic("regexp: Compile(%q): %v", pat, err)
 	}
+	var ranges []rune
+	var allowEmpty, shaped bool
 	r := tf.F
 	for i := range s.Alts {
 		a := &s.Alts[i]
@@ -790,13 +848,29 @@ func (in *Interp) regexpMatch(pat string, s *Str) *Term {
 			}
 			continue
 		}
-		if class == nil {
-			in.unsupported("regexp %q on symbolic bytes", pat)
+		if !shaped {
+			var ok bool
+			ranges, allowEmpty, ok = regexpClassShape(pat)
+			if !ok {
+				in.unsupported("regexp %q on symbolic bytes (only ^[class]+$ shapes are modelled)", pat)
+			}
+			shaped = true
 		}
-		// note: Go's $ without (?m) matches only at end of text; a trailing "\n" does not match
-		m := tf.Bool(a.Len() > 0)
+		// ASCII bytes only: a byte >= 0x80 would be part of a multi-byte rune
+		m := tf.Bool(a.Len() > 0 || allowEmpty)
 		for _, b := range a.Sym {
-			m = tf.And(m, class(b))
+			in1 := tf.F
+			for k := 0; k+1 < len(ranges); k += 2 {
+				lo, hi := ranges[k], ranges[k+1]
+				if lo > 0x7f {
+					continue
+				}
+				if hi > 0x7f {
+					hi = 0x7f
+				}
+				in1 = tf.Or(in1, tf.And(tf.Cmp(OpUle, tf.BV(8, uint64(lo)), b), tf.Cmp(OpUle, b, tf.BV(8, uint64(hi)))))
+			}
+			m = tf.And(m, in1)
 		}
 		r = tf.Or(r, tf.And(a.G, m))
 	}
